@@ -29,6 +29,7 @@ func runC06(r *Report, p *Program) {
 	c06R2(h)
 	c06R3(h)
 	c06R4(h)
+	c06R5(h)
 }
 
 func c06R1(h H) {
